@@ -252,11 +252,19 @@ def inject_reuse(rng, e):
     if K2 == 'MESSAGE' and r[0] == 'field' and False:
         return None
     atom = USES[K2](r)
+    generic = None
+    if K in ('BOOL', 'NUMBER', 'STRING') and K2 in ('BOOL', 'NUMBER', 'STRING') and rng.random() < 0.4:
+        # a third occurrence whose type stays generic (PRIMITIVE), placed between the two definite uses
+        generic = gen.pick(rng, (('call', 'bool', (r,)), ('bin', '=', ('call', 'str', (r,)), A.string('q')),
+                                 ('bin', 'in', r, ('set', (r,))), ('bin', '!=', ('call', 'int', (r,)), A.num('7'))))
+    parts = [e, atom] if generic is None else [e, generic, atom]
     if rng.random() < 0.5:
-        e2 = ('bin', 'and', e, atom)
-    else:
-        e2 = ('bin', 'and', atom, e)
-    return e2, {'mode': 'b', 'reference': A.render_expr(r), 'first_use': K, 'via': via, 'second_use': K2}
+        parts.reverse()
+    e2 = parts[0]
+    for q in parts[1:]:
+        e2 = ('bin', 'and', e2, q)
+    return e2, {'mode': 'b', 'reference': A.render_expr(r), 'first_use': K, 'via': via, 'second_use': K2,
+                'generic_middle': generic is not None}
 
 
 def run(ctx):
@@ -331,6 +339,9 @@ def run(ctx):
                     if not uses:
                         return None
                     e3 = ('bin', 'and', host, USES[info['second_use']](uses[0][0]))
+                    if info.get('generic_middle'):
+                        e3 = ('bin', 'and', ('bin', 'and', host, ('call', 'bool', (uses[0][0],))),
+                              USES[info['second_use']](uses[0][0]))
                 else:
                     return None
                 if hplapi.outcome(P[level].parse, text_for(level, host))[0] != 'ok':
